@@ -472,6 +472,11 @@ def getslice(interp, st, obj, sl):
     if obj.kind == "tuple" and all(x is None or x.kind == "const" for x in sl):
         yield st, ("ok", V("tuple", obj.d[slice(*[None if x is None else x.d for x in sl])]))
         return
+    if obj.shadow is not None and obj.root is not None and all(x is None or (x.kind == "const" and x.shadow is None) for x in sl):
+        # a datum of D sliced with constant bounds: probed per live cell like every other built-in operation
+        slc = slice(*[None if x is None else x.d for x in sl])
+        yield from interp.shadow_apply(st, lambda o, slc=slc: o[slc], [obj], name=f"getslice_{slc.start}_{slc.stop}_{slc.step}")
+        return
     raise Unsupported("slice of symbolic value")
 
 
